@@ -180,3 +180,44 @@ def method_binding(w, m, cpp_class, prefix, suffix, method_suffix, doc):
                 .replace('self->print', 'py::scoped_ostream_redirect output; self->print')
                 + repr_binding(m, cpp_class, prefix, suffix))
     return plain_method_binding(m, cpp_class, prefix, suffix, method_suffix, doc)
+
+
+@spec(rec=True, ret='str', reads=('SEQ',))
+def methods_fold(w, ms, cpp_class, prefix, suffix, k):
+    """bindings of the first k methods; gtsam::Values.insert(size_t, X) additionally gets an insert_<name> alias"""
+    if k <= 0:
+        return ''
+    return (methods_fold(w, ms, cpp_class, prefix, suffix, k - 1)
+            + (method_binding(w, ms[k - 1], cpp_class, prefix, suffix, '_' + ms[k - 1].args.args_list[1].name.strip(), '')
+               if (ms[k - 1].name == 'insert' and cpp_class == 'gtsam::Values'
+                   and ty_cpp(ms[k - 1].args.args_list[0].ctype).strip() == 'size_t') else '')
+            + method_binding(w, ms[k - 1], cpp_class, prefix, suffix, '', ''))
+
+
+@spec()
+def function_binding(f, namespace, prefix, suffix):
+    """free function overload: m.def("name", [](params){[return] ns::callee(names);}, py::arg...)"""
+    return (prefix + '.' + ('def_static' if isinstance(f, StaticMethod) else 'def') + '("'
+            + (f.name + '_' if (f.name in PYTHON_KEYWORDS or f.name == 'print') else f.name) + '",[]('
+            + args_signature(f.args) + '){'
+            + ('' if (f.return_type.type1.typename.name == 'void' and not f.return_type.type2) else 'return')
+            + ' ' + namespace + '::' + (igf_cpp(f) if isinstance(f, InstantiatedGlobalFunction) else f.name)
+            + '(' + args_names(f.args) + ');}' + py_args_names(f.args) + ')' + suffix)
+
+
+@spec(rec=True, ret='str', reads=('SEQ',))
+def functions_fold(fs, namespace, prefix, suffix, k):
+    if k <= 0:
+        return ''
+    return functions_fold(fs, namespace, prefix, suffix, k - 1) + function_binding(fs[k - 1], namespace, prefix, suffix)
+
+
+@spec()
+def module_var(w, namespaces):
+    return 'm_' + '_'.join(namespaces[len(w.top_module_namespaces):])
+
+
+@spec()
+def qualified(name, namespaces):
+    """C++ qualification of name under a namespace path whose first component is the empty global namespace"""
+    return ('::'.join(namespaces[(1 if namespaces[0] == '' else 0):] + [name])) if len(namespaces) > 0 else name
